@@ -151,6 +151,15 @@ def _dt(d):
         return bool_
     if d is object:
         return object_
+    if isinstance(d, type):
+        if d.__name__ in ("SInt", "sym_int"):
+            return int64
+        if d.__name__ in ("SReal", "Q", "Fraction", "sym_float"):
+            return float64
+        if d.__name__ in ("SBool",):
+            return bool_
+        if d.__name__ in ("str", "SymStr", "tuple", "list", "NoneType", "dict", "ndarray"):
+            return object_
     if isinstance(d, str):
         return {"float32": float32, "float64": float64, "int32": int32, "int64": int64, "bool": bool_,
                 "f4": float32, "f8": float64, "i4": int32, "i8": int64}[d]
